@@ -77,6 +77,13 @@ def primitives(H):
     K = H.call(Affine2D.skewy, Affine2D(1, 0, 0, 1, 0, 0), ang)
     H.prove(And(H.close((K[0], K[2], K[3], K[4], K[5]), (1, 0, 1, 0, 0)), H.close(K[1] * c, s)), "skewY.matrix")
     H.prove(H.close(tuple(H.call(Affine2D.skewy, A, ang)), mat_mul(A, tuple(K))), "skewY.post_multiplies")
+    # skew(ax, ay) is ONE matrix [1 tan(ay) tan(ax) 1 0 0] (not skewX followed by skewY, whose a entry is 1 + tan(ax) tan(ay))
+    ang2 = H.real("ang2")
+    s2, c2 = H.trig(ang2)
+    if not (H.mode == "concrete" and abs(c2) < 1e-6):
+        K = H.call(Affine2D.skew, Affine2D(1, 0, 0, 1, 0, 0), ang, ang2)
+        H.prove(And(H.close((K[0], K[3], K[4], K[5]), (1, 1, 0, 0)), H.close(K[2] * c, s), H.close(K[1] * c2, s2)), "skew.matrix_of_both_angles")
+        H.prove(H.close(tuple(H.call(Affine2D.skew, A, ang, ang2)), mat_mul(A, tuple(K))), "skew.post_multiplies")
     H.prove(H.close(tuple(H.call(Affine2D.gettranslate, A)), (A[4], A[5])), "gettranslate.def")
     H.prove(H.close(tuple(H.call(Affine2D.getscale, A)), (A[0], A[3])), "getscale.def")
 
